@@ -7,4 +7,12 @@
 		g_exit = nondet_size_t();         \
 	} while (0)
 
-void h_scan_line(void) { void *buf; size_t n; size_t *lenp; VP_HAVOC_GHOSTS(); http_scan_line(buf, n, lenp); VP_CANARY(); }
+/* VP_REPLAY_NCAP is defined only for the extra trace run that looks for a SMALL
+ * counterexample after an obligation has failed (spec.json replay_defines); the
+ * deciding run has no cap. */
+#ifdef VP_REPLAY_NCAP
+#define VP_REPLAY_CAP(n) __CPROVER_assume((n) <= VP_REPLAY_NCAP)
+#else
+#define VP_REPLAY_CAP(n) ((void) 0)
+#endif
+void h_scan_line(void) { void *buf; size_t n; size_t *lenp; VP_HAVOC_GHOSTS(); VP_REPLAY_CAP(n); http_scan_line(buf, n, lenp); VP_CANARY(); }
